@@ -7,7 +7,7 @@ for l in "$@"; do
   /verif/tools/confirm_mutant.sh /tmp/agents/$a/out/$l $p$l 2>&1 | grep -v conda | tail -3
   [ -f /verif/seeded/$p$l/meta.json ] && python3 - /verif/seeded/$p$l/meta.json <<PY
 import json,sys
-m=json.load(open(sys.argv[1])); m['round']=5; m['base_commit']='$(git -C /repo rev-parse --short HEAD)'
+m=json.load(open(sys.argv[1])); m['round']=int(open("/tmp/agents/round").read()); m['base_commit']='$(git -C /repo rev-parse --short HEAD)'
 json.dump(m,open(sys.argv[1],'w'),indent=1,ensure_ascii=False)
 PY
 done
